@@ -2865,6 +2865,20 @@ func (c *fctx) assignCode(lhs ast.Expr, code string, k func() string) string {
 		}
 	}
 	switch l := lhs.(type) {
+	case *ast.StarExpr:
+		// *p = v for a pointer to a translated struct: the whole object is
+		// replaced (a nil p is a panic)
+		if id, ok := l.X.(*ast.Ident); ok && isPtrStruct(c.typeOf(l.X)) && c.t.leanType(c.typeOf(l.X)) != "" && !c.isRecvVal(l.X) {
+			c.partial = true
+			b := leanIdent(id.Name)
+			note := ""
+			if c.trace {
+				// fields of abstract type are not in the Lean structure: record
+				// that the whole object was overwritten
+				note = fmt.Sprintf("  let tr := tr ++ [(%q, [])]\n", "set *"+id.Name)
+			}
+			return fmt.Sprintf("match %s with\n| none => none\n| some _ =>\n  let %s := some %s\n%s%s", b, b, code, note, indent(k()))
+		}
 	case *ast.Ident:
 		if l.Name == "_" {
 			return k()
